@@ -45,24 +45,24 @@ theorem C13_replace_once (pat rep pre post : List Char) (hp : pat ≠ [])
     replaceAll pat rep (pre ++ pat ++ post) = pre ++ rep ++ post :=
   replaceAll_once pat rep _ pre post hp h1 ((splitFirst_none_iff pat post).2 h2)
 
-/-- For every template and every state directory, name, exclusion list and detached flag: if after
-the four other substitutions the expression placeholder occurs exactly once (`exprOnce`, a
+/-- For every template and every state directory, name, exclusion list, list of configured variable names and detached flag: if after
+the five other substitutions the expression placeholder occurs exactly once (`exprOnce`, a
 decidable condition on template and values that the harness evaluates on the CURRENT template at
 every run), then there are `pre`, `post` -- fixed before the expression is chosen -- such that for
 EVERY expression (including ones that contain placeholder names) the script handed to the shell
 is `pre ++ expr ++ post`. -/
-theorem C13_expression_verbatim (tpl stateDir name excluded : List Char) (detached : Bool)
-    (h : exprOnce (substOthers tpl stateDir name excluded detached) = true) :
+theorem C13_expression_verbatim (tpl stateDir name excluded envNames : List Char) (detached : Bool)
+    (h : exprOnce (substOthers tpl stateDir name excluded envNames detached) = true) :
     ∃ pre post : List Char,
-      substOthers tpl stateDir name excluded detached = pre ++ PH_EXPR ++ post ∧
+      substOthers tpl stateDir name excluded envNames detached = pre ++ PH_EXPR ++ post ∧
       ¬ PH_EXPR <:+: post ∧
-      ∀ expr : List Char, render tpl stateDir name excluded detached expr = pre ++ expr ++ post :=
-  render_verbatim tpl stateDir name excluded detached h
+      ∀ expr : List Char, render tpl stateDir name excluded envNames detached expr = pre ++ expr ++ post :=
+  render_verbatim tpl stateDir name excluded envNames detached h
 
 /-- the hypothesis is needed: a substituted value that itself contains the placeholder makes the
 expression appear twice (test names are `exec<N>`, state directories are temporary paths) -/
 theorem C13_expression_hypothesis_needed :
-    render (PH_NAME ++ [' '] ++ PH_EXPR) [] PH_EXPR [] false ['x'] = ['x', ' ', 'x'] := by
+    render (PH_NAME ++ [' '] ++ PH_EXPR) [] PH_EXPR [] [] false ['x'] = ['x', ' ', 'x'] := by
   decide
 
 /-! ## CR LF -/
@@ -201,12 +201,12 @@ theorem C13_divider_guard_needed :
 /-- `\r\r\n` keeps one CR in front of the LF (and the result contains a CR LF again) -/
 example : replaceCrlfSpec [97, 13, 13, 10, 98, 13, 10, 13] = [97, 13, 10, 98, 10, 13] := by decide
 
-/-- the hypothesis of `C13_expression_verbatim` holds for a small template with all five placeholders -/
-example : exprOnce (substOthers (PH_STATE ++ PH_NAME ++ PH_EXCL ++ PH_PERSIST ++ [' '] ++ PH_EXPR ++ ['\n'])
-    ['/', 't'] ['e', '1'] ['A', '|', 'B'] false) = true := by decide
+/-- the hypothesis of `C13_expression_verbatim` holds for a small template with all six placeholders -/
+example : exprOnce (substOthers (PH_STATE ++ PH_NAME ++ PH_EXCL ++ PH_ENV ++ PH_PERSIST ++ [' '] ++ PH_EXPR ++ ['\n'])
+    ['/', 't'] ['e', '1'] ['A', '|', 'B'] ['V', ' ', 'W'] false) = true := by decide
 
 /-- … and an expression that names placeholders reaches the shell unchanged -/
-example : render (PH_PERSIST ++ [' '] ++ PH_EXPR) [] [] [] false (PH_PERSIST ++ PH_EXPR) =
+example : render (PH_PERSIST ++ [' '] ++ PH_EXPR) [] [] [] [] false (PH_PERSIST ++ PH_EXPR) =
     ['1', ' '] ++ PH_PERSIST ++ PH_EXPR := by decide
 
 /-- the guards of the round trip are satisfiable: unterminated, empty and binary payloads -/
